@@ -47,6 +47,41 @@ func runC08(c *Ctx) {
 				attempt = ci
 			}
 		})
+		// second form: one attempt is a NEW method of its own (`resp, retriable, err := t.exchangeOnce(ctx, m)`), called
+		// from the loop only; the loop is judged on the helper's results, the is-new flag inside the helper
+		var once *ssa.Function // the attempt helper
+		var onceFlagIdx = -1   // index of its bool result
+		var innerAttempt *ssa.Call
+		if attempt == nil {
+			eachInstr(f, func(in ssa.Instruction) {
+				ci, ok := in.(*ssa.Call)
+				if !ok || once != nil {
+					return
+				}
+				h := staticCallee(ci)
+				if h == nil || !isNewHelper(h) || soleCallSite(h) != in {
+					return
+				}
+				var inner *ssa.Call
+				eachInstr(h, func(x ssa.Instruction) {
+					if cx, ok := x.(*ssa.Call); ok && strings.HasSuffix(callName(cx), li.exchName) {
+						inner = cx
+					}
+				})
+				res := h.Signature.Results()
+				if inner == nil || res.Len() != 3 {
+					return
+				}
+				for i := 0; i < res.Len(); i++ {
+					if types.Identical(res.At(i).Type().Underlying(), types.Typ[types.Bool]) {
+						onceFlagIdx = i
+					}
+				}
+				if onceFlagIdx >= 0 {
+					once, attempt, innerAttempt = h, ci, inner
+				}
+			})
+		}
 		// the retry counter: phi [0, phi+1]
 		var retry *ssa.Phi
 		var inc *ssa.BinOp
@@ -100,6 +135,16 @@ func runC08(c *Ctx) {
 				if cl, ok := cm.X.(*ssa.Call); ok && callName(cl) == "invoke:(context.Context).Err" && isNilConst(cm.Y) && cm.Op == token.EQL && cl.Call.Value == ssa.Value(f.Params[1]) {
 					hasCtx = true
 					continue
+				}
+			}
+			// helper form: the flag is the helper's bool result; what it means is decided from the helper's returns below
+			if v, truth := g.asBool(); once != nil && isNewV == nil {
+				if ex, ok := v.(*ssa.Extract); ok && ex.Tuple == ssa.Value(attempt) && ex.Index == onceFlagIdx {
+					if pol, inner, ok := attemptFlagMeaning(once, innerAttempt, onceFlagIdx); ok && pol == truth {
+						hasNotNew = true
+						isNewV = inner
+						continue
+					}
 				}
 			}
 			if v, truth := g.asBool(); !truth && types.Identical(v.Type().Underlying(), types.Typ[types.Bool]) && isNewV == nil {
@@ -172,6 +217,9 @@ func runC08(c *Ctx) {
 		c.rule("R3", "is-new flag true exactly where a connection was created for this call", 2)
 		if isNewV != nil {
 			key := "is-new@" + funcName(f)
+			if once != nil {
+				f = once // the flag and the dial live in the attempt helper
+			}
 			switch v := isNewV.(type) {
 			case *ssa.Phi: // reuse: phi [false, true] with the true edge from the dial block
 				good := len(v.Edges) == 2
@@ -212,7 +260,8 @@ func runC08(c *Ctx) {
 					nDial++
 					under := false
 					for _, g := range guardsOfInstr(in) {
-						if bv, truth := g.asBool(); bv == ssa.Value(v) && truth {
+						// `isNew := c == nil` must be true at the dial, `reused := c != nil` false
+						if bv, truth := g.asBool(); bv == ssa.Value(v) && truth == (v.Op == token.EQL) {
 							under = true
 							continue
 						}
@@ -428,4 +477,113 @@ func idlePoolResult(v ssa.Value) bool {
 	}
 	cl, ok := ex.Tuple.(*ssa.Call)
 	return ok && strings.HasSuffix(callName(cl), ".getIdleConn")
+}
+
+// attemptFlagMeaning: the attempt helper `once` (NEW; results (reply, flag bool, error)) wraps the exchange call `inner`.
+// Decides what a true flag means and returns the is-new value it is built from:
+//   - on the return(s) reached over "the exchange failed" the flag is NOT(is-new) (polarity true: "retriable") or
+//     is-new itself (polarity false), where is-new is a phi of constants, or `c == nil` / `c != nil` of the connection
+//     the idle pool handed out;
+//   - on every other return the flag is the constant that means "do not retry", the success return gives the
+//     exchange's reply with a nil error, failure returns give a nil reply.
+func attemptFlagMeaning(once *ssa.Function, inner *ssa.Call, flagIdx int) (polarity bool, isNew ssa.Value, ok bool) {
+	var innerErr ssa.Value
+	for _, r := range referrers(inner) {
+		if ex, isEx := r.(*ssa.Extract); isEx && ex.Type().String() == "error" {
+			innerErr = ex
+		}
+	}
+	if innerErr == nil {
+		return false, nil, false
+	}
+	classify := func(v ssa.Value) (pol bool, base ssa.Value, good bool) {
+		neg := false
+		for {
+			if u, isU := v.(*ssa.UnOp); isU && u.Op == token.NOT {
+				v, neg = u.X, !neg
+				continue
+			}
+			break
+		}
+		switch x := v.(type) {
+		case *ssa.Phi:
+			for _, e := range x.Edges {
+				if _, isB := constBool(e); !isB {
+					return false, nil, false
+				}
+			}
+			return neg, x, true // phi is the is-new flag; negated = retriable
+		case *ssa.BinOp:
+			if isNilConst(x.Y) && idlePoolResult(x.X) {
+				if x.Op == token.EQL {
+					return neg, x, true
+				}
+				if x.Op == token.NEQ { // reused := c != nil
+					return !neg, x, true
+				}
+			}
+		}
+		return false, nil, false
+	}
+	decided := false
+	for _, ret := range returnsOf(once) {
+		rv := returnedValues(ret)
+		if len(rv) != 3 {
+			return false, nil, false
+		}
+		errIdx, replyIdx := -1, -1
+		for i := range rv {
+			if i == flagIdx {
+				continue
+			}
+			if rv[i].Type().String() == "error" {
+				errIdx = i
+			} else {
+				replyIdx = i
+			}
+		}
+		if errIdx < 0 || replyIdx < 0 {
+			return false, nil, false
+		}
+		onExchFailure := false
+		for _, g := range guardsOfInstr(ret) {
+			if cm, isC := g.asCmp(); isC && cm.X == innerErr && isNilConst(cm.Y) && cm.Op == token.NEQ {
+				onExchFailure = true
+			}
+		}
+		if onExchFailure {
+			pol, base, good := classify(rv[flagIdx])
+			if !good || !isNilConst(rv[replyIdx]) {
+				return false, nil, false
+			}
+			if decided && (pol != polarity || base != isNew) {
+				return false, nil, false
+			}
+			polarity, isNew, decided = pol, base, true
+			continue
+		}
+		// other returns: constant flag; checked against the polarity after the loop
+		if _, isB := constBool(rv[flagIdx]); !isB {
+			return false, nil, false
+		}
+		if isNilConst(rv[errIdx]) {
+			ex, isEx := rv[replyIdx].(*ssa.Extract)
+			if !isEx || ex.Tuple != ssa.Value(inner) {
+				return false, nil, false
+			}
+		} else if !isNilConst(rv[replyIdx]) {
+			return false, nil, false
+		}
+	}
+	if !decided {
+		return false, nil, false
+	}
+	// "do not retry" constant on the other returns
+	for _, ret := range returnsOf(once) {
+		rv := returnedValues(ret)
+		if b, isB := constBool(rv[flagIdx]); isB && b == polarity {
+			return false, nil, false
+		}
+	}
+	return polarity, isNew, true
 }
